@@ -72,14 +72,19 @@ def helper_key(argv0, cwd):
 
 class Fixture:
     def __init__(self, bins, targets, sequences=None, max_retained_runs=None, extra_cfg=None, gitignore=None, lock_host=None,
-                 via=None, ignore_via=None, sepgit=None):
+                 via=None, ignore_via=None, sepgit=None, root_dir=None):
         """targets: list of dicts {path, uses?, ignores?, commands?, argmaps?}
         via: how the configuration file is named on the command line -- "plain" (canonical path), "link" (through a
         symbolic link to the repository), "dotdot" (a path with a `..` component).  monorail takes its work path from
         that argument as typed, so all three name the same repository.  None: derived from the configuration (so that a
         replayed scenario is invoked the same way)."""
         self.bins = bins
-        self.root = os.path.realpath(tempfile.mkdtemp(prefix="verif-fx-"))
+        # root_dir: where the throw-away repository lives (e.g. a memory file system, where a rename is much faster than
+        # on a journalled disk); unusable -> the default temporary directory
+        try:
+            self.root = os.path.realpath(tempfile.mkdtemp(prefix="verif-fx-", dir=root_dir if root_dir and os.access(root_dir, os.W_OK) else None))
+        except OSError:
+            self.root = os.path.realpath(tempfile.mkdtemp(prefix="verif-fx-"))
         self.repo = os.path.join(self.root, "repo")
         self.hdir = os.path.join(self.root, "helper")
         self.home = os.path.join(self.root, "home")
